@@ -76,6 +76,15 @@ def check(rep, an, tier):
         want_p = 2 if cfg["subsample"] else 1
         rep.check("R-TYPESTATE", f"{want_p} P problem(s) reach the returned opacities", len(pprobs) >= want_p, where=res.fn.loc(),
                   construct="P problems", entry=entry, config=res.config, msg=f"found {len(pprobs)}")
+        # the returned opacities belong row by row to the caller's targets: no problem that solves them may be fitted to a
+        # randomly drawn (subsampled / permuted) selection of the target rows
+        for po, obj, cons in ret_p:
+            drawn = [o_ for at, v, ops in R.walk_atoms(obj) for o_ in ops if not o_.tag("cvx") and o_.tag("rows_drawn")]
+            rep.check("R-TYPESTATE", "returned opacities are fitted to the targets in the caller's row order", not drawn, where=F.where_po(po),
+                      construct=f"objective of the problem built in {po.fn.name} that solves the returned P", entry=entry, config=res.config,
+                      msg="on some path the returned opacities are the solution of the sub-problem fitted to the randomly drawn subsample "
+                          "(rng.choice order): row i of P then belongs to another target row than row i of B, and was not refitted "
+                          "after the last X update")
         # ---- constraint flows
         F.flow_constraints(rep, res, entry, {"lb", "ub"} | ({"mask"} if cfg["mask"] else set()), xprobs, what="X constraints")
         F.must_constraint(rep, res, entry, "lb", "lower bound", xprobs)
